@@ -1,6 +1,7 @@
 package engine
 
 import (
+	"fmt"
 	"strings"
 
 	"pgregory.net/rapid"
@@ -71,8 +72,7 @@ type Palette struct {
 	// quantify over all converter sets and include it.
 	LooseOutputs bool
 	// Hostile: see GenPaletteHostile; named labels are always declared by tag
-	// and no function is assembled with BuildFunc (NewValueSet needs
-	// identifier names).
+	// (functions assembled with BuildFunc carry them in their value lists).
 	Hostile bool
 }
 
@@ -109,6 +109,21 @@ func GenPalette(g G, allowIface bool, allowSub bool) Palette {
 		impl := Implementers(p.Types[len(p.Types)-1])
 		p.Types = append(p.Types, Pick(g, impl))
 	}
+	if g.Pct(12) {
+		// the unnamed struct type next to a defined struct type with the same
+		// underlying type: mutually assignable, not identical
+		p.Types = append(p.Types, TypeU, Pick(g, []int{0, 1, 2, 4}))
+	}
+	if allowIface && g.Pct(12) {
+		// the empty interface: every value implements it
+		p.Types = append(p.Types, TypeAny)
+	}
+	if allowIface && g.Pct(12) {
+		// two distinct interface types with one method set (they implement
+		// each other), plus an implementer
+		p.Types = append(p.Types, TypeI0, TypeI0b, Pick(g, Implementers(TypeI0)))
+	}
+	p.Types = dedupInts(p.Types)
 	nn := g.Int(1, 3)
 	p.Names = AllNames[:nn]
 	if allowSub && g.Pct(60) {
@@ -117,6 +132,31 @@ func GenPalette(g G, allowIface bool, allowSub bool) Palette {
 	}
 	p.NameP = Pick(g, []int{30, 50, 70})
 	return p
+}
+
+func dedupInts(xs []int) []int {
+	seen := map[int]bool{}
+	var r []int
+	for _, x := range xs {
+		if !seen[x] {
+			seen[x] = true
+			r = append(r, x)
+		}
+	}
+	return r
+}
+
+// IfaceSources lists the interface types other than t that implement
+// interface type t (a wider interface, a twin with the same method set, or --
+// for the empty interface -- any interface).
+func IfaceSources(t int) []int {
+	var r []int
+	for u := 0; u < NumTypes; u++ {
+		if u != t && IsIface(u) && Implements(u, t) {
+			r = append(r, u)
+		}
+	}
+	return r
 }
 
 func (p Palette) concrete() []int {
@@ -229,7 +269,7 @@ type GenFuncOpts struct {
 
 func GenFunc(g G, pal Palette, id int, o GenFuncOpts) FuncSpec {
 	fs := FuncSpec{ID: id}
-	if o.AllowBuilt && !pal.Hostile && g.Pct(12) {
+	if o.AllowBuilt && g.Pct(12) {
 		fs.Built = true
 		fs.InForm, fs.OutForm = FormStruct, FormStruct
 		fs.HasErr = true
@@ -357,8 +397,8 @@ func CompatSource(g G, pal Palette, p Label) Label {
 			// be a converter output (Produce turns it into an implementer
 			// when it supplies it directly)
 			l = Label{Type: p.Type, Sub: otherSub()}
-			if p.Type == TypeI0 && g.Bool() {
-				l = Label{Type: TypeI2}
+			if srcs := IfaceSources(p.Type); len(srcs) > 0 && g.Bool() {
+				l = Label{Type: Pick(g, srcs)}
 				if g.Bool() {
 					l.Sub = otherSub()
 				}
@@ -430,7 +470,7 @@ func (b *Builder) Produce(p Label, depth int, maxConvIn int) {
 		src.Name = ""
 	}
 	fs := FuncSpec{ID: b.NewID()}
-	if b.Opts.AllowBuilt && !b.Pal.Hostile && g.Pct(12) {
+	if b.Opts.AllowBuilt && g.Pct(12) {
 		fs.Built, fs.InForm, fs.OutForm, fs.HasErr = true, FormStruct, FormStruct, true
 	} else {
 		fs.InForm, fs.OutForm = GenForm(g), GenForm(g)
@@ -915,7 +955,6 @@ func GenHostile(g G, o GenFuncOpts) *Scenario {
 	return b.Sc
 }
 
-
 // Wide pools: longer and non-ASCII identifiers, more subtypes.
 var (
 	WideNames = []string{"a", "b", "cd", "ef", "a_very_long_parameter_name_that_goes_on_and_on", "x1", "x2", "ünï", "naïve", "q", "zz9", "ab"}
@@ -941,6 +980,53 @@ func GenWide(g G, o GenFuncOpts) *Scenario {
 	return b.Sc
 }
 
+// GenMany: a call graph several times larger than the other profiles build
+// (size-dependent behaviour: pre-sized buffers, recursion depth, search cost):
+// 40-160 single-input converters over generated value names n0, n1, ..., each
+// turning an earlier value into the next one (a chain, a tree, or a mix); the
+// target asks for up to three late values, only n0 is supplied. Every
+// converter has one input and everything is derivable, so the call must
+// succeed (C05 premise (a)).
+func GenMany(g G) *Scenario {
+	n := Pick(g, []int{40, 60, 70, 100, 130, 160})
+	chainP := Pick(g, []int{30, 80, 100})
+	mk := func(i int) Label {
+		t := g.Int(0, 5)
+		return Label{Name: fmt.Sprintf("n%d", i), Type: t, Dyn: t}
+	}
+	labels := []Label{mk(0)}
+	sc := &Scenario{Inputs: []Input{{L: labels[0], Tok: 1}}}
+	for i := 1; i <= n; i++ {
+		from := labels[i-1]
+		if !g.Pct(chainP) {
+			from = labels[g.Int(0, i-1)]
+		}
+		to := mk(i)
+		id := i
+		if id >= TargetID {
+			id += 100 // keep clear of the target's id
+		}
+		fs := FuncSpec{ID: id, InForm: Pick(g, []string{FormStruct, FormPtr}), OutForm: Pick(g, []string{FormStruct, FormPtr}),
+			In: []Label{from}, Out: []Label{to}, HasErr: g.Pct(20)}
+		sc.Convs = append(sc.Convs, fs)
+		labels = append(labels, to)
+	}
+	// registration order is not creation order
+	perm := rapid.Permutation(sc.Convs).Draw(g.T, "order")
+	sc.Convs = perm
+	tgt := FuncSpec{ID: TargetID, InForm: FormStruct, OutForm: FormPos}
+	seen := map[string]bool{}
+	for i, k := 0, g.Int(1, 3); i < k; i++ {
+		l := labels[n-g.Int(0, n/3)]
+		if !seen[l.Name] {
+			seen[l.Name] = true
+			tgt.In = append(tgt.In, l)
+		}
+	}
+	tgt.Out = []Label{{Type: 0, Dyn: 0}}
+	sc.Target = tgt
+	return sc
+}
 
 // GenLayered: multi-input converter sets that are acyclic BY CONSTRUCTION:
 // the six concrete types are ranked and every converter's inputs have strictly
